@@ -57,3 +57,14 @@ prop(
     level_text="Every request built for generated start/last numbers (1-block gaps, gaps of last-N and last-N+1, 2^32/2^63/2^64-scale numbers), total difficulties up to 2^256-1, all last-N values, with and without a previous proof and stored last-N headers, and every request the client emits during generated sync histories: start < last, td(start) <= td(last), boundary inside [td(start), td(last)], difficulties strictly increasing inside (start, boundary), samples iff more than last-N blocks are missing, count >= the independently computed FlyClient bound (strict where the range is >= 2^64).",
     level_note="the count clause is strict only where identical draws are practically impossible; distribution quality is not judged; f64 evaluation of the bound is allowed an off-by-one",
 )
+
+prop(
+    "C13", "exploration",
+    rule="one evaluation = one complete paged query (all pages followed through last_cursor) compared with the list computed from an independent decoding of the raw key-value dump; "
+         "a cell = (query kind, order/grouping, filter kinds, paging class, search kind exact/prefix/longer/wrong-type)",
+    sizes=tiers(16, 2400, 60, 16, 200000, 900, min_evals=10000, min_cells=40),
+    technique="runtime monitoring: RPC answers vs. an independent decoder of the RocksDB dump, plus metamorphic relations (desc = reverse(asc), grouped = group(ungrouped), capacity = sum(cells))",
+    level_text="On stores filled by the real filter_block from generated chains (prefix-sharing scripts incl. empty args, same code hash with different hash types, typed/untyped cells, many cells per block) every generated query (exact / prefix / longer-args / wrong-type search keys, both orders, limits 1..100000, all filter kinds incl. empty, inverted and touching ranges) returns exactly the matching entries once in key order; desc is the reverse of asc; grouped equals the ungrouped list grouped by consecutive transaction for every page size; get_cells_capacity equals the sum over get_cells and reports the stored tip.",
+    level_note="script_len_range is taken as inclusive on both ends and the transaction script filter as exact (as ckb-indexer implements them); the dump decoder is part of the trusted base",
+    assumptions=["ground truth is the store content (the property is about views of the index), decoded independently of service.rs"],
+)
